@@ -864,9 +864,9 @@ func main() {
 	}
 	r := vh.NewRng(vh.EnvSeed())
 	out := vh.NewOut(path)
-	mult := 1
+	mult, hm := 1, 4 // hm: multiplier of the handshake scenarios (cheap: run in batches in child processes)
 	if tier == "thorough" {
-		mult = 30
+		mult, hm = 30, 60
 	}
 	// add records a case; in-process ops are answered at once (the answer is returned), child ops later ("")
 	add := func(op string, class func(ans string) string) string {
@@ -919,7 +919,7 @@ func main() {
 			return pfx + first(a)
 		}
 	}
-	for i := 0; i < 150*mult; i++ {
+	for i := 0; i < 150*hm; i++ {
 		cls := genClass(r)
 		tail := [][]string{{}, {"succ"}, {"rdy"}, {"err"}, {"other"}, {"succ", "rdy"}, {"chal"}}[r.Intn(7)]
 		script := append([]string{"sup", "auth:" + vh.Hex([]byte(cls))}, tail...)
@@ -948,7 +948,7 @@ func main() {
 		add("disclose2 "+genPwConn(r, cls)+" "+vh.Hex([]byte(cls)), tokOrNone("oracle/disclose2/"))
 	}
 	// NewSession: Authenticator and AuthProvider are mutually exclusive
-	for i := 0; i < 12*mult; i++ {
+	for i := 0; i < 12*hm; i++ {
 		cls := genClass(r)
 		h := 1 + r.Intn(3)
 		static, prov := "none", "-"
@@ -964,7 +964,7 @@ func main() {
 			func(a string) string { return "oracle/sesscfg/" + first(a) })
 	}
 	// property monitors on the observed trace (never both Authenticator and AuthProvider: NewSession refuses that)
-	for i := 0; i < 500*mult; i++ {
+	for i := 0; i < 500*hm; i++ {
 		cls := genClass(r)
 		cfg := genConn(r, cls)
 		for !strings.Contains(cfg, "static=none") && !strings.HasSuffix(cfg, "prov=-") {
@@ -984,7 +984,7 @@ func main() {
 		add(strings.TrimSpace("mon "+cfg+" "+strings.Join(sc, " ")), func(a string) string { return "oracle/mon/" + kind + "/" + first(a) })
 	}
 	// "only after TLS verification as configured": real TLS endpoints, the session's own dialer, several hosts
-	for i := 0; i < 100*mult; i++ {
+	for i := 0; i < 100*hm; i++ {
 		args := genTLSArgs(r)
 		add("tlscred "+args, func(a string) string {
 			switch {
@@ -1102,7 +1102,7 @@ func main() {
 		return genPw(r, cls)
 	}
 	// exhaustive scripts up to length 3 over the frame kinds (class names generated), all kinds of authenticator
-	for rep := 0; rep < mult; rep++ {
+	for rep := 0; rep < hm; rep++ {
 		for l := 0; l <= 3; l++ {
 			n := 1
 			for i := 0; i < l; i++ {
@@ -1127,7 +1127,7 @@ func main() {
 		}
 	}
 	// the property's own scenario, many class names, challenge rounds
-	for i := 0; i < 300*mult; i++ {
+	for i := 0; i < 300*hm; i++ {
 		cls := genClass(r)
 		if i%6 == 0 {
 			hs(genCoherent(r, cls))
@@ -1136,7 +1136,7 @@ func main() {
 		hs(genAuth(cls), genAuthScript(r, cls))
 	}
 	// Conn.init: Authenticator / AuthProvider per host x server scripts, through the session's own connection config
-	for i := 0; i < 700*mult; i++ {
+	for i := 0; i < 700*hm; i++ {
 		cls := genClass(r)
 		if i%8 == 0 { // a working multi-round authenticator, configured statically or handed out by the provider
 			a, sc := genCoherent(r, cls)
@@ -1150,7 +1150,7 @@ func main() {
 		}
 		add(strings.TrimSpace("hsx "+genConn(r, cls)+" "+strings.Join(genScript(r, cls), " ")), outcomeClass("hsx/"))
 	}
-	for i := 0; i < 100*mult; i++ {
+	for i := 0; i < 100*hm; i++ {
 		add("tlsx "+genTLSArgs(r), func(a string) string {
 			if strings.Contains(a, "tls=fail") {
 				return "tlsx/some-rejected"
@@ -1159,7 +1159,7 @@ func main() {
 		})
 	}
 	// the public entry point: NewSession with a scripted HostDialer
-	for i := 0; i < 120*mult; i++ {
+	for i := 0; i < 120*hm; i++ {
 		cls := genClass(r)
 		add(strings.TrimSpace("newsession "+genConn(r, cls)+" "+strings.Join(genScript(r, cls), " ")), outcomeClass("newsession/"))
 	}
